@@ -26,3 +26,6 @@ LEVEL_TEXT = ("Proof (logic) + correspondence (runtime), PARTIAL as to channel s
 LEVEL_NOTE = ("Trusted: Lean kernel; axioms propext/Classical.choice/Quot.sound; hand-written engine model tied to the code by sampled correspondence through the real Engine with real "
               "tokio channels (300 quick / 10k thorough). Channel FIFO/liveness semantics assumed. The spec view for the oracle is the (proved) model restricted to the observables the property "
               "determines uniquely (deliveries, sent/failed/refused reports, fatality, in-flight marks, trading state).")
+
+# further models / theorems / correspondences for code around this property (see DESIGN.md §13.6)
+SUBCHECKS = ["C03R"]
